@@ -8,7 +8,6 @@ use super::decorators;
 use super::types::{FixtureDefinition, FixtureScope, FixtureUsage};
 use super::FixtureDatabase;
 use rustpython_parser::ast::{ArgWithDefault, Arguments, Expr, Stmt};
-use rustpython_parser::{parse, Mode};
 use std::collections::HashSet;
 use std::path::{Path, PathBuf};
 use tracing::{debug, info};
@@ -38,21 +37,19 @@ impl FixtureDatabase {
         self.file_cache
             .insert(file_path.clone(), std::sync::Arc::new(content.to_string()));
 
-        // Parse the Python code
-        let parsed = match parse(content, Mode::Module, "") {
-            Ok(ast) => ast,
-            Err(e) => {
-                // Keep existing fixture data when parse fails (user is likely editing)
-                // This provides better LSP experience during editing with syntax errors
-                debug!(
-                    "Failed to parse Python file {:?}: {} - keeping previous data",
-                    file_path, e
-                );
-                // What other files get through this one (its imports) is read from the
-                // current text, so the version-keyed caches are stale from now on.
-                self.invalidate_cycle_cache();
-                return;
-            }
+        // Parse the Python code (through the AST cache: the AST of the last version that parsed
+        // stays there, and the file's imports are read from it while the text does not parse)
+        let Some(parsed) = self.get_parsed_ast(&file_path, content) else {
+            // Keep existing fixture data when parse fails (user is likely editing)
+            // This provides better LSP experience during editing with syntax errors
+            debug!(
+                "Failed to parse Python file {:?} - keeping previous data",
+                file_path
+            );
+            // What other files get through this one (its imports) may have changed with
+            // the text, so the version-keyed caches are stale from now on.
+            self.invalidate_cycle_cache();
+            return;
         };
 
         // Clear previous usages for this file (only after successful parse)
@@ -91,7 +88,7 @@ impl FixtureDatabase {
         let line_index = self.get_line_index(&file_path, content);
 
         // Process each statement in the module
-        if let rustpython_parser::ast::Mod::Module(module) = parsed {
+        if let rustpython_parser::ast::Mod::Module(module) = parsed.as_ref() {
             debug!("Module has {} statements", module.body.len());
 
             // First pass: collect all module-level names (imports, assignments, function/class defs)
